@@ -1,6 +1,7 @@
 package msgdrv
 
 import (
+	"bytes"
 	"fmt"
 	"reflect"
 	"strings"
@@ -247,7 +248,9 @@ func (d *Driver) FamHist(perType int) {
 				case "marshalto":
 					guard(&e.St, &e.Note, func() {
 						n := o.msg.(sizer).Size()
-						buf := make([]byte, n)
+						// the caller's buffer is not fresh memory (a buffer that held the previous message): every byte of the
+						// encoding has to be written
+						buf := bytes.Repeat([]byte{0xA5}, n)
 						err = o.msg.(marshalerTo).MarshalTo(buf)
 						e.Out = tr.Bytes(buf)
 					})
